@@ -89,7 +89,8 @@ def main(tier, seed, replay=None, scale=1.0):
         if not replay and not os.environ.get("VERIF_CIDS"):
             # directed cases (negative ids): the largest directory of every image wiped, two ways
             # ... and a file claiming the first block of a multi-block directory (two choices of directory)
-            ids = [-(k + 1) for k in range(4 * len(names))] + ids
+            # ... and the largest directory wiped together with /lost+found
+            ids = [-(k + 1) for k in range(5 * len(names))] + ids
         items = [(w.dir, names, b.tool("e2fsck"), env, cid) for cid in ids]
         results = run.pmap(_one, items, chunksize=8)
         for r in results:
